@@ -164,6 +164,10 @@ def judge(plan, outcome):
                 vs.append(_v("run did not end with an error although the data are missing", **env))
             elif loss != "stream_error" and not r["exc"].get("aldy"):
                 vs.append(_v("missing data did not produce an explanatory (Aldy) error", exc=r["exc"], **env))
+            elif loss == "stream_error" and r["exc"].get("type") not in ("OSError", "ValueError"):
+                # the injected read error itself must surface; an error (or a call) computed from the
+                # records delivered before it means the failure was swallowed
+                vs.append(_v("a read error in the alignment stream did not surface as such", exc=r["exc"], **env))
         # output
         o = r["output"] or ""
         if out == "simple":
